@@ -654,9 +654,62 @@ class _ApplyGetters(ast.NodeTransformer):
         return new
 
 
+#: methods whose result the interpreter only takes the truth of
+_TRUTH_COERCED = ('__subclasscheck__', '__instancecheck__', '__contains__')
+
+
+def _predicate_returns(tree) -> int:
+    """``return a or (b and c)`` / ``return x if c else y`` in a method whose result is
+    only taken the truth of, as the chain of tests and returns it abbreviates"""
+    count = 0
+
+    def chain(expr, at):
+        def loc(node):
+            return ast.fix_missing_locations(ast.copy_location(node, at))
+        if isinstance(expr, ast.BoolOp):
+            is_or = isinstance(expr.op, ast.Or)
+            out = []
+            for value in expr.values[:-1]:
+                test = value if is_or else ast.UnaryOp(op=ast.Not(), operand=value)
+                out.append(loc(ast.If(test=test, body=[loc(ast.Return(
+                    value=ast.Constant(value=is_or)))], orelse=[])))
+            return out + chain(expr.values[-1], at)
+        if isinstance(expr, ast.IfExp):
+            return [loc(ast.If(test=expr.test, body=chain(expr.body, at),
+                               orelse=chain(expr.orelse, at)))]
+        return [loc(ast.Return(value=expr))]
+
+    def rewrite(body):
+        nonlocal count
+        out = []
+        for stmt in body:
+            if isinstance(stmt, (ast.FunctionDef, ast.AsyncFunctionDef, ast.ClassDef)):
+                out.append(stmt)
+                continue
+            for field in ('body', 'orelse', 'finalbody'):
+                inner = getattr(stmt, field, None)
+                if isinstance(inner, list) and inner and isinstance(inner[0], ast.stmt):
+                    setattr(stmt, field, rewrite(inner))
+            for handler in getattr(stmt, 'handlers', ()):
+                handler.body = rewrite(handler.body)
+            if isinstance(stmt, ast.Return) and isinstance(stmt.value,
+                                                           (ast.BoolOp, ast.IfExp)):
+                out.extend(chain(stmt.value, stmt))
+                count += 1
+            else:
+                out.append(stmt)
+        return out
+
+    for node in ast.walk(tree):
+        if isinstance(node, ast.FunctionDef) and node.name in _TRUTH_COERCED:
+            node.body = rewrite(node.body)
+    return count
+
+
 def desugar(tree):
     """normalise ``tree`` in place; returns the number of rewrites"""
     count = 0
+    count += _predicate_returns(tree)
     functions, modules, shadowed, filterfalse = _operator_imports(tree)
     mapper = _MapToGenerator(functions, modules, shadowed, filterfalse)
     mapper.visit(tree)
